@@ -13,6 +13,7 @@ import (
 type verifCustomS struct{ A, B int32 }
 type verifCustomI int64
 type verifCustomL []byte
+type verifCustomT string
 
 // structurally identical, never registered
 type verifTwinS struct{ A, B int32 }
@@ -22,6 +23,7 @@ var (
 	verifCustomSType = reflect.TypeOf(verifCustomS{})
 	verifCustomIType = reflect.TypeOf(verifCustomI(0))
 	verifCustomLType = reflect.TypeOf(verifCustomL(nil))
+	verifCustomTType = reflect.TypeOf(verifCustomT(""))
 )
 
 var errVerifMarker = errors.New("verif: custom marker missing")
@@ -120,6 +122,48 @@ func (c verifMarkL) Write(w *WriteBuf, p unsafe.Pointer) {
 	w.Write(v)
 }
 
+// verifMarkT: string = varint(len+1) marker text. A named string: its Go kind
+// is string, so only the registry distinguishes it from a plain string.
+type verifMarkT struct{ mark byte }
+
+func (c verifMarkT) Read(r *ReadBuf, p unsafe.Pointer) error {
+	l, err := r.Varint()
+	if err != nil {
+		return err
+	}
+	if l < 1 {
+		return errVerifMarker
+	}
+	b, err := r.Next(int(l))
+	if err != nil {
+		return err
+	}
+	if b[0] != c.mark {
+		return errVerifMarker
+	}
+	*(*verifCustomT)(p) = verifCustomT(string(b[1:]))
+	return nil
+}
+func (c verifMarkT) Skip(r *ReadBuf) error {
+	l, err := r.Varint()
+	if err != nil {
+		return err
+	}
+	return skip(r, l)
+}
+func (c verifMarkT) New(r *ReadBuf) unsafe.Pointer { return r.Alloc(verifCustomTType) }
+func (c verifMarkT) Omit(p unsafe.Pointer) bool    { return false }
+func (c verifMarkT) Write(w *WriteBuf, p unsafe.Pointer) {
+	v := *(*verifCustomT)(p)
+	w.Varint(int64(len(v)) + 1)
+	w.Byte(c.mark)
+	w.Write([]byte(v))
+}
+
+func verifMarkBytesT(mark byte, v *verifCustomT) []byte {
+	return append([]byte{mark}, []byte(*v)...)
+}
+
 var verifSchemaS = Schema{Type: "fixed", Object: &SchemaObject{Name: "customS", Size: 9}}
 var verifSchemaI = Schema{Type: "fixed", Object: &SchemaObject{Name: "customI", Size: 9}}
 var verifSchemaL = Schema{Type: "bytes"}
@@ -129,6 +173,8 @@ func verifRegisterCustom(mark byte) {
 	Register(verifCustomSType, func(schema Schema, typ reflect.Type, omit bool) (Codec, error) { return verifMarkS{mark}, nil })
 	Register(verifCustomIType, func(schema Schema, typ reflect.Type, omit bool) (Codec, error) { return verifMarkI{mark}, nil })
 	Register(verifCustomLType, func(schema Schema, typ reflect.Type, omit bool) (Codec, error) { return verifMarkL{mark}, nil })
+	Register(verifCustomTType, func(schema Schema, typ reflect.Type, omit bool) (Codec, error) { return verifMarkT{mark}, nil })
+	RegisterSchema(verifCustomTType, Schema{Type: "string"})
 	RegisterSchema(verifCustomSType, verifSchemaS)
 	RegisterSchema(verifCustomIType, verifSchemaI)
 	RegisterSchema(verifCustomLType, verifSchemaL)
